@@ -14,6 +14,32 @@ PROOF = "trie.smt:SparseMerkleProof"
 KECCAK = "ext:eth_utils.keccak"
 
 
+def _subterms(t):
+    if isinstance(t, tuple) and t and isinstance(t[0], str):
+        yield t
+    if isinstance(t, tuple):
+        for x in t:
+            if isinstance(x, tuple):
+                yield from _subterms(x)
+
+
+def _from_lin(form):
+    """linear form ({atom: coeff}, const) -> term"""
+    atoms, const = form
+    t = None
+    for a, co in sorted(atoms.items(), key=lambda kv: -kv[1]):
+        x = a if abs(co) == 1 else ("bin", "*", C(abs(co)), a)
+        if t is None:
+            t = x if co > 0 else ("un", "-", x)
+        else:
+            t = ("bin", "+" if co > 0 else "-", t, x)
+    if t is None:
+        return C(const)
+    if const:
+        t = ("bin", "+" if const > 0 else "-", t, C(abs(const)))
+    return t
+
+
 @rule("PROV2", ["C14", "C15"])
 def prov2(ctx, pid):
     """delete is set(key, <configured default>); the default is assigned once from the constructor
@@ -293,18 +319,60 @@ def sib5(ctx, pid):
 
 
 # ---------------------------------------------------------------------------
+def _hb_forms(eng, st, pd, size):
+    """Accepted linear forms of the branch point: (size - 1) - highest set bit of path_diff."""
+    from ..sym import linform
+    forms = []
+    # (i) scan: bit iterates reversed(range(size)) and the path assumes path_diff & (1 << bit) > 0
+    scan = ("call", "ext:reversed", (("call", "ext:range", (size,), ()),), ())
+    for t, pol, _ in st.log:
+        tt, pp = truth_norm(t, pol)
+        if pp and tt[0] == "bin" and tt[1] == "&":
+            for a, b in ((tt[2], tt[3]), (tt[3], tt[2])):
+                if a == pd and b[0] == "bin" and b[1] == "<<" and b[2] == C(1) and b[3][0] == "iter" and b[3][1] == scan:
+                    forms.append((({size: 1, b[3]: -1}, -1), ({b[3]: -1}, -1)))
+    # (ii) bit_length: highest set bit = path_diff.bit_length() - 1
+    bl = ("call", "m:bit_length", (pd,), ())
+    forms.append((({size: 1, bl: -1}, 0), ({bl: -1}, 0)))
+    return forms
+
+
 @rule("ORD6", ["C15"])
 def ord6(ctx, pid):
     """SparseMerkleProof.update: the shortness check dominates the only branch write and is the
     exact bound (REL2); same-key path writes only the value, other-key path exactly one branch slot
     (EFF5); copies in and out (AL3); the root is derived on demand (PROV11)."""
+    from ..sym import linform, _lin
     eng = S(ctx)
     f = ctx.P.func(PROOF + ".update")
     tr = Trace(ctx, f)
     nu = ("p", f.params[3])
+    size = ("attr", ("self",), "_branch_size")
     probs = []
     n_same = n_other = n_refuse = 0
+    # path_diff term (whatever the local is called): to_int(tracked key) ^ to_int(update key)
+    a1 = ("call", "ext:eth_utils.to_int", (("attr", ("self",), "key"),), ())
+    a2 = ("call", "ext:eth_utils.to_int", (("attr", ("self",), "_key"),), ())
+    b1 = ("call", "ext:eth_utils.to_int", (("p", f.params[1]),), ())
+    pds = [eng.mk_bin("^", x, b1) for x in (a1, a2)]
+    locals_ = set(ctx.E.bindings(f))
+
+    def unbound(st_):
+        """the path uses a local that no statement on it has bound (the bit scan found nothing):
+        impossible for path_diff != 0 within branch_size bits (the key length is validated)"""
+        for t_, pol_, _n in st_.log:
+            if any(x[0] == "g" and x[1] in locals_ for x in _subterms(t_)):
+                return True
+        for ev_ in st_.events:
+            if ev_.k == "stmt" and isinstance(ev_.node, ast.Assign):
+                for nm in ast.walk(ev_.node):
+                    if isinstance(nm, ast.Name) and isinstance(nm.ctx, ast.Load) and nm.id in locals_ and nm.id not in st_.env and nm.id not in f.all_params():
+                        return True
+        return False
+
     for p, st in pq.states(ctx, f, unroll=1):
+        if unbound(st):
+            continue
         effs = []
         for ev in st.events:
             if ev.k in ("call", "src") and ev.a != "ok":
@@ -312,7 +380,7 @@ def ord6(ctx, pid):
             for e in tr.at(ev):
                 if e.state == "PRF" and e.op in ("W", "SET", "D", "M") and util.is_self_root(e):
                     effs.append((ev, e))
-        pd = st.env.get("path_diff")
+        pd = next((v for v in st.env.values() if v in pds), None)
         same = None
         if pd is not None:
             if st.facts.eq.get(pd) == 0:
@@ -320,16 +388,18 @@ def ord6(ctx, pid):
             elif 0 in st.facts.ne.get(pd, ()):
                 same = False
         lr = pq.local_raise(p)
-        bp = st.env.get("branch_point")
-        if same is False and bp is None:
-            # the bit scan ended without finding a differing bit: impossible for path_diff != 0
-            # within branch_size bits (key length is validated); not a path of the program
-            continue
-        if lr is not None and p.exit[1].endswith("ValidationError") and bp is not None:
+        if lr is not None and p.exit[1].endswith("ValidationError") and same is False:
             n_refuse += 1
-            lo, hi = st.facts.offs.get((nu, bp), (-INF, INF))
-            if hi > 0:
-                probs.append(("REL2", "the refusal is taken on a path that allows len(node_updates) - branch_point up to %s; it must be exactly <= 0" % ("inf" if hi >= INF else hi)))
+            # the refusal must imply len(node_updates) <= branch point (any accepted form)
+            okr = False
+            for (formA, formB) in _hb_forms(eng, st, pd, size):
+                base, k = _lin(_from_lin(formA))
+                lo, hi = st.facts.offs.get((nu, base), (-INF, INF))
+                if hi <= k:
+                    okr = True
+            if not okr:
+                probs.append(("REL2", "the refusal is taken on a path that does not imply len(node_updates) <= branch point (offsets known: %s)"
+                              % {tstr(kk[1])[:40]: v for kk, v in st.facts.offs.items() if kk[0] == nu}))
             if effs:
                 probs.append(("ORD6", "the proof is modified before the refusal"))
             continue
@@ -347,31 +417,37 @@ def ord6(ctx, pid):
                 if not (isinstance(e.value, ast.Name) and e.value.id == f.params[2]):
                     probs.append(("EFF5", "same-key update stores `%s`, not the given value" % ast.unparse(e.value)))
         elif same is False:
-            n_other += 1
             kinds = [(e.op, e.loc[1][-1]) for ev, e in effs]
+            if not effs:
+                # the bit scan ended without finding a differing bit: impossible for path_diff != 0
+                continue
+            n_other += 1
             if kinds != [("W", "_branch")]:
                 probs.append(("EFF5", "other-key update has proof effects %s, expected exactly one store into _branch" % kinds))
                 continue
             ev, e = effs[0]
             kt = eng.ev(e.key, f, st)
             vt = eng.ev(e.value, f, st)
-            if bp is None or kt != bp or vt != ("sub", nu, bp):
-                probs.append(("EFF5", "the branch write is _branch[%s] = %s; expected _branch[branch_point] = node_updates[branch_point]" % (tstr(kt)[:30], tstr(vt)[:40])))
-            lo, hi = st.facts.offs.get((nu, bp), (-INF, INF)) if bp is not None else (-INF, INF)
-            if lo < 1:
-                probs.append(("REL2", "node_updates[branch_point] is read on a path that only guarantees len(node_updates) - branch_point >= %s; the guard must refuse len(node_updates) <= branch_point" % ("-inf" if lo <= -INF else lo)))
-            # branch point = (size - 1) - highest differing bit
-            if bp is not None:
-                size = ("attr", ("self",), "_branch_size")
-                okbp = bp[0] == "bin" and bp[1] == "-" and bp[2] == ("bin", "-", size, C(1)) and bp[3][0] == "iter" \
-                    and bp[3][1] == ("call", "ext:reversed", (("call", "ext:range", (size,), ()),), ())
-                if not okbp:
-                    probs.append(("EFF5", "branch_point is `%s`; expected (branch_size - 1) - bit with bit scanning reversed(range(branch_size))" % tstr(bp)[:70]))
-                else:
-                    bit = bp[3]
-                    want = (eng.mk_bin("&", pd, ("bin", "<<", C(1), bit)), True)
-                    if not any(truth_norm(t, pol) == want for t, pol, _ in st.log):
-                        probs.append(("EFF5", "the scanned bit is not tested as path_diff & (1 << bit) > 0"))
+            if not (vt[0] == "sub" and vt[1] == nu):
+                probs.append(("EFF5", "the stored sibling is `%s`, not an element of node_updates" % tstr(vt)[:40]))
+                continue
+            it = vt[2]
+            lk, li = linform(kt), linform(it)
+            forms = _hb_forms(eng, st, pd, size)
+            ok_k = lk is not None and any(lk == fa or lk == fb for fa, fb in forms)
+            ok_i = li is not None and any(li == fa for fa, fb in forms)
+            if not ok_k:
+                probs.append(("EFF5", "the branch slot written is `%s`; expected (branch_size - 1) - highest differing bit" % tstr(kt)[:60]))
+            if not ok_i:
+                neg = li is not None and any(li == fb for fa, fb in forms)
+                probs.append(("EFF5", "the sibling is read from node_updates[%s]%s; node_updates is root->leaf and may be shorter than the branch, so it must be indexed by the non-negative depth (branch_size - 1) - highest differing bit"
+                              % (tstr(it)[:50], " - an index counted from the END of the list" if neg else "")))
+            if ok_i:
+                base, k = _lin(it)
+                lo, hi = st.facts.offs.get((nu, base), (-INF, INF))
+                if lo < k + 1:
+                    probs.append(("REL2", "node_updates[%s] is read on a path that only guarantees len(node_updates) - index >= %s; the guard must refuse len(node_updates) <= branch point"
+                                  % (tstr(it)[:40], "-inf" if lo <= -INF else lo - k)))
         else:
             if effs:
                 probs.append(("EFF5", "the proof is modified on a path that does not decide whether the key is the tracked key"))
@@ -388,7 +464,7 @@ def ord6(ctx, pid):
             ctx.ok(cst, f.loc(), okmsg, rule=r)
     # path_diff provenance
     for p, st in pq.states(ctx, f, unroll=1):
-        pd = st.env.get("path_diff")
+        pd = next((v for v in st.env.values() if isinstance(v, tuple) and v and v[0] == "bin" and v[1] == "^"), None)
         if pd is not None:
             a = ("call", "ext:eth_utils.to_int", (("attr", ("self",), "key"),), ())
             a2 = ("call", "ext:eth_utils.to_int", (("attr", ("self",), "_key"),), ())
